@@ -86,10 +86,15 @@ impl Prop for C19 {
             cfg.set("commit-style", "normal 39");
         }
         let cwd = t.ps(&["/work/repo", "/", "/home/u/my repo", "/tmp/ünï/r"]).to_string();
-        let prefix = match t.weighted(&[3, 2, 1]) {
+        let prefix = match t.weighted(&[3, 2, 1, 1, 1, 1]) {
             0 => None,
             1 => Some("src/".to_string()),
-            _ => Some("a/b/".to_string()),
+            2 => Some("a/b/".to_string()),
+            // (the path grammar has `docs/x-1/`, `tests/ünï/`, `dir with space/`, `c/`: directories
+            // whose names start like these without being below them)
+            3 => Some("docs/x/".to_string()),
+            4 => Some("test/".to_string()),
+            _ => Some("dir/".to_string()),
         };
         let relative_paths = t.chance(1, 3);
         cfg.env.current_dir = Some(cwd.clone());
